@@ -6,7 +6,7 @@ log record: [site, visit, t_us, /robot/mode, attribute snapshot, extra]
 wait record: ["wait", n, t_us, alarm_us, {feedback key: NT value}, None]
 """
 from simkit.util import Violation
-from models.robot_model import fb_key, fb_value, period_us, index_events
+from models.robot_model import fb_key, fb_value, period_us, index_events, declared_order
 
 
 def _fail(prop, rule, i, msg):
@@ -34,7 +34,7 @@ HOOK_SUFFIX = ("Init", ".on_enable", ".on_disable", ".setup", ".ctor")
 
 
 def _c05(prop, cfg, ops, log, outcome):
-    comps = [c["name"] for c in cfg["components"]]
+    comps = [c["name"] for c in declared_order(cfg)]
     nfb = len(cfg["robot_feedbacks"]) + sum(len(c["feedbacks"]) for c in cfg["components"])
     segs, _ = _iterations(log)
     p = period_us(cfg)
@@ -104,7 +104,7 @@ def _c05(prop, cfg, ops, log, outcome):
 
 
 def _c06(prop, cfg, ops, log, outcome):
-    comps = cfg["components"]
+    comps = declared_order(cfg)
     names = [c["name"] for c in comps]
     setup_seen = {}
     enabled = {n: False for n in names}
